@@ -25,6 +25,18 @@
 // of the same and of other kinds runs through all clauses in richMode: every parameter position
 // of a request has its own value and every handler reports Route().Params, Params(name) for each
 // declared name, the positional names *1.. / +1.., the shorthands * and +, and Params with default.
+//
+// Every way of registering (registration-forms family, enum.go): a fourth family spells the
+// registrations in the documented forms the other families never use - the verb-specific methods,
+// several methods in one Add, Use with a list of prefixes, several handlers in one registration,
+// Route() obtained from a group or a sub-app, groups created with a middleware (also nested in groups
+// and sub-apps), prefixes and patterns without the leading slash - and sends requests of every
+// HTTP method (formMode; handlers also report Route().Method).
+//
+// Patterns and prefixes of every shape (pattern-shape family, enum.go): a fifth family, explored
+// like the third one, with escaped special characters, custom constraints (registered on every
+// application of a program), several segments, trailing slashes, a parameter glued to a constant
+// and spellings without the leading slash, in prefixes and in the routes below them.
 package main
 
 import (
@@ -38,6 +50,7 @@ import (
 	"runtime/pprof"
 	"sort"
 	"strings"
+	"syscall"
 	"time"
 
 	"verifmc/core"
@@ -49,7 +62,13 @@ const nWorkers = 16
 // (C04_ONLY_LATE=1: the late-registration family; C04_ONLY_PARAMS=1: the parameterised-prefix family).
 var onlyLate = os.Getenv("C04_ONLY_LATE") == "1"
 var onlyParams = os.Getenv("C04_ONLY_PARAMS") == "1"
-var onlyOne = onlyLate || onlyParams
+var onlyForms = os.Getenv("C04_ONLY_FORMS") == "1"   // the registration-forms family
+var onlyShapes = os.Getenv("C04_ONLY_SHAPES") == "1" // the pattern-shape family
+var onlyShared = os.Getenv("C04_ONLY_SHARED") == "1" // the shared sub-app family
+var onlyOne = onlyLate || onlyParams || onlyForms || onlyShapes || onlyShared
+
+// skipFamily tells whether a diagnostic switch excludes the family whose own switch is mine.
+func skipFamily(mine bool) bool { return onlyOne && !mine }
 
 const fullShrinkCap = 150
 
@@ -79,19 +98,22 @@ type worker struct {
 
 	outc [4][4][2]int64
 
-	pending     []pendingV
-	seenKinds   map[string]bool
-	chainCache  map[string]*sigInfo
-	hasMemo     map[string]bool
-	bySig       map[string]*sigInfo
-	fullShrinks int
-	maxPairs    int
-	lateSamples int
-	richSamples int
-	pre         string // counter prefix of the family being explored ("" = first family)
-	cfgSel      []int  // configurations evaluated by evalTree (nil = all)
-	mixedAt     int    // request index of the last two-phase run at which a spliced and a late handler ran (-1 = none)
-	allDev      bool   // classification: explore the deviating map orders under every configuration
+	pending       []pendingV
+	seenKinds     map[string]bool
+	chainCache    map[string]*sigInfo
+	hasMemo       map[string]bool
+	bySig         map[string]*sigInfo
+	fullShrinks   int
+	maxPairs      int
+	lateSamples   int
+	richSamples   int
+	formSamples   int
+	sharedSamples int
+	shapeSamples  int
+	pre           string // counter prefix of the family being explored ("" = first family)
+	cfgSel        []int  // configurations evaluated by evalTree (nil = all)
+	mixedAt       int    // request index of the last two-phase run at which a spliced and a late handler ran (-1 = none)
+	allDev        bool   // classification: explore the deviating map orders under every configuration
 }
 
 func main() {
@@ -101,8 +123,10 @@ func main() {
 	treeText := flag.String("tree", "", `evaluate the tree given in text form, e.g. [mount("/:t"){GET "/x" reply}], and print every differing request`)
 	r := core.Start("C04")
 	pol, lpol, rpol := quickPolicy(), quickLatePolicy(), quickRichPolicy()
+	fpol, spol, hpol := quickFormPolicy(), quickShapePolicy(), quickSharedPolicy()
 	if !r.Quick() {
 		pol, lpol, rpol = thoroughPolicy(), thoroughLatePolicy(), thoroughRichPolicy()
+		fpol, spol, hpol = thoroughFormPolicy(), thoroughShapePolicy(), thoroughSharedPolicy()
 	}
 	if *countOnly {
 		total, classes := enumerate(pol, func(int64) bool { return false }, nil)
@@ -122,6 +146,19 @@ func main() {
 			fmt.Println(c, "x", len(rpol.cfgsFor(c.C, c.N)), "configurations")
 		}
 		fmt.Println("total trees:", rtotal)
+		for _, fam := range []struct {
+			name string
+			pol  policy
+		}{{"registration-forms family:", fpol}, {"pattern-shape family:", spol}, {"shared sub-app family:", hpol}} {
+			total, classes := enumerate(fam.pol, func(int64) bool { return false }, nil)
+			fmt.Println(fam.name)
+			ev := 0
+			for _, c := range classes {
+				fmt.Println(c, "x", len(fam.pol.cfgsFor(c.C, c.N)), "configurations")
+				ev += int(c.Trees) * len(fam.pol.cfgsFor(c.C, c.N))
+			}
+			fmt.Println("total trees:", total, "evaluations:", ev)
+		}
 		return
 	}
 	if *treeText != "" || r.Replay != "" {
@@ -140,28 +177,49 @@ func main() {
 				defer pprof.StopCPUProfile()
 			}
 		}
-		runWorker(r, pol, lpol, rpol)
+		runWorker(r, pol, lpol, rpol, fpol, spol, hpol)
 		return
 	}
 	total, classes := enumerate(pol, func(int64) bool { return false }, nil)
 	ltotal, lclasses := enumerate(lpol, func(int64) bool { return false }, nil)
 	rtotal, rclasses := enumerate(rpol, func(int64) bool { return false }, nil)
+	ftotal, fclasses := enumerate(fpol, func(int64) bool { return false }, nil)
+	stotal, sclasses := enumerate(spol, func(int64) bool { return false }, nil)
+	htotal, hclasses := enumerate(hpol, func(int64) bool { return false }, nil)
 	if crashed := r.SpawnWorkers(nWorkers, []string{"GOMAXPROCS=1"}); len(crashed) > 0 {
 		core.Fatal("workers crashed: %v", crashed)
 	}
 	if r.P.Counters["trees"] != total && len(r.P.Caps) == 0 && !onlyOne {
 		core.Fatal("enumeration mismatch: workers evaluated %d trees, enumeration has %d", r.P.Counters["trees"], total)
 	}
-	if r.P.Counters["late_family_trees"] != ltotal && len(r.P.Caps) == 0 && !onlyParams {
+	if r.P.Counters["late_family_trees"] != ltotal && len(r.P.Caps) == 0 && !skipFamily(onlyLate) {
 		core.Fatal("enumeration mismatch: workers evaluated %d trees of the late-registration family, enumeration has %d", r.P.Counters["late_family_trees"], ltotal)
 	}
-	if r.P.Counters["param_trees"] != rtotal && len(r.P.Caps) == 0 && !onlyLate {
+	if r.P.Counters["forms_trees"] != ftotal && len(r.P.Caps) == 0 && !skipFamily(onlyForms) {
+		core.Fatal("enumeration mismatch: workers evaluated %d trees of the registration-forms family, enumeration has %d", r.P.Counters["forms_trees"], ftotal)
+	}
+	if r.P.Counters["shared_trees"] != htotal && len(r.P.Caps) == 0 && !skipFamily(onlyShared) {
+		core.Fatal("enumeration mismatch: workers evaluated %d trees of the shared sub-app family, enumeration has %d", r.P.Counters["shared_trees"], htotal)
+	}
+	if len(r.P.Caps) == 0 && !skipFamily(onlyShared) && (r.P.Counters["shared_nontrivial"] == 0 || r.P.Counters["shared_evaluations_answering_under_both_mounts_of_one_subapp"] == 0) {
+		core.Fatal("vacuous exploration: no sub-app of the shared sub-app family answered under both of its mounts: %v", r.P.Counters)
+	}
+	if r.P.Counters["shape_trees"] != stotal && len(r.P.Caps) == 0 && !skipFamily(onlyShapes) {
+		core.Fatal("enumeration mismatch: workers evaluated %d trees of the pattern-shape family, enumeration has %d", r.P.Counters["shape_trees"], stotal)
+	}
+	if len(r.P.Caps) == 0 && !skipFamily(onlyForms) && (r.P.Counters["forms_nontrivial"] == 0 || r.P.Counters["forms_evaluations_running_an_extra_handler_or_group_middleware"] == 0) {
+		core.Fatal("vacuous exploration: no group middleware / extra handler of the registration-forms family ran: %v", r.P.Counters)
+	}
+	if len(r.P.Caps) == 0 && !skipFamily(onlyShapes) && (r.P.Counters["shape_nontrivial"] == 0 || r.P.Counters["shape_evaluations_consulting_the_custom_constraint"] == 0) {
+		core.Fatal("vacuous exploration: the custom constraint of the pattern-shape family was never consulted: %v", r.P.Counters)
+	}
+	if r.P.Counters["param_trees"] != rtotal && len(r.P.Caps) == 0 && !skipFamily(onlyParams) {
 		core.Fatal("enumeration mismatch: workers evaluated %d trees of the parameterised-prefix family, enumeration has %d", r.P.Counters["param_trees"], rtotal)
 	}
-	if len(r.P.Caps) == 0 && !onlyLate && (r.P.Counters["param_nontrivial"] == 0 || r.P.Counters["param_evaluations_reading_a_second_wildcard_or_plus_value"] == 0) {
+	if len(r.P.Caps) == 0 && !skipFamily(onlyParams) && (r.P.Counters["param_nontrivial"] == 0 || r.P.Counters["param_evaluations_reading_a_second_wildcard_or_plus_value"] == 0) {
 		core.Fatal("vacuous exploration: no handler of the parameterised-prefix family read a second wildcard/plus value: %v", r.P.Counters)
 	}
-	if len(r.P.Caps) == 0 && !onlyParams && (r.P.Counters["late_evaluations"] == 0 || r.P.Counters["late_nontrivial"] == 0 || r.P.Counters["late_evaluations_with_spliced_and_late_handler_in_one_request"] == 0) {
+	if len(r.P.Caps) == 0 && !skipFamily(onlyLate) && (r.P.Counters["late_evaluations"] == 0 || r.P.Counters["late_nontrivial"] == 0 || r.P.Counters["late_evaluations_with_spliced_and_late_handler_in_one_request"] == 0) {
 		core.Fatal("vacuous exploration: no two-phase program ran a handler registered after start-up: %v", r.P.Counters)
 	}
 	// anti-vacuity: the mechanisms under test were exercised
@@ -179,6 +237,17 @@ func main() {
 	for _, c := range rclasses {
 		rclassText = append(rclassText, fmt.Sprintf("%s x %d configurations", c, len(rpol.cfgsFor(c.C, c.N))))
 	}
+	var hclassText []string
+	for _, c := range hclasses {
+		hclassText = append(hclassText, fmt.Sprintf("%s x %d configurations", c, len(hpol.cfgsFor(c.C, c.N))))
+	}
+	var fclassText, sclassText []string
+	for _, c := range fclasses {
+		fclassText = append(fclassText, fmt.Sprintf("%s x %d configurations", c, len(fpol.cfgsFor(c.C, c.N))))
+	}
+	for _, c := range sclasses {
+		sclassText = append(sclassText, fmt.Sprintf("%s x %d configurations", c, len(spol.cfgsFor(c.C, c.N))))
+	}
 	var lcfgText []string
 	for _, ci := range lpol.phasedCfgs {
 		lcfgText = append(lcfgText, cfgs[ci].String())
@@ -193,8 +262,8 @@ func main() {
 		Level:      "exploration",
 		Exhaustive: true,
 		Coverage: map[string]any{
-			"evaluations":         r.P.Counters["evaluations"] + r.P.Counters["late_evaluations"] + r.P.Counters["param_evaluations"],
-			"distinct_nontrivial": r.P.Counters["nontrivial"] + r.P.Counters["late_nontrivial"] + r.P.Counters["param_nontrivial"],
+			"evaluations":         r.P.Counters["evaluations"] + r.P.Counters["late_evaluations"] + r.P.Counters["param_evaluations"] + r.P.Counters["forms_evaluations"] + r.P.Counters["shape_evaluations"] + r.P.Counters["shared_evaluations"],
+			"distinct_nontrivial": r.P.Counters["nontrivial"] + r.P.Counters["late_nontrivial"] + r.P.Counters["param_nontrivial"] + r.P.Counters["forms_nontrivial"] + r.P.Counters["shape_nontrivial"] + r.P.Counters["shared_nontrivial"],
 			"unspecified_skipped": unspec,
 			"unspecified_classes": map[string]any{
 				"what":       "Route().Path seen by a handler is spelled differently although trace, Params, status, Allow and body agree (counters 'route-path-spelling <clause> <class>'); not part of the answer to a request, hence not judged",
@@ -203,6 +272,9 @@ func main() {
 			},
 			"rule": "one evaluation = one (program tree, routing configuration) pair: the tree is built as P (mounts as written; also with the sub-app mounted first and populated afterwards), P' (every mount replaced by a group with the mount prefix at the same position), P'' (every group prefix folded into the full path) and P''' (Route() chains), every request derived from the tree (each full pattern instantiated with v/w, with and without trailing slash, other letter case, %78 for x, below-prefix and glued-suffix paths for middleware, every container prefix with and without slash, '/' and one foreign path) x {GET, POST} is sent to each program and trace+Params+status+Allow+body are compared P~P', P'~P'', P'''~P''; P is also rebuilt under every deviating appList map iteration order (" + dev + ") and compared with the default order. Trees: every skeleton (<= 3 items per level, depth and size bounds below, >= 1 container) x every labelling with the alphabets of its size class; all (tree, configuration) pairs are distinct by construction. An evaluation is non-trivial when, in P', at least one handler registered inside a container ran (the prefix mechanism decided the answer); counted in the loop. " +
 				"Parameterised-prefix family (prefixes with every parameter kind): a further evaluation = one (tree, configuration) pair of a third family whose container prefixes carry named, optional, <int>-constrained, wildcard and greedy parameters, several of them and constants after them (on mounts and groups, nested up to two deep; the full-path and Route()-chain programs spell the same prefixes at their levels) and whose routes and middleware have parameters of the same and of other kinds; all clauses of the first family are evaluated, with requests that give every parameter position its own value and handlers that report every way of reading parameters (bounds.parameterised_prefix_family); non-trivial as in the first family. " +
+				"Registration-forms family (every way of registering): a further evaluation = one (tree, configuration) pair of a fourth family whose routes, middleware and groups are registered in the documented forms the other families never use (bounds.registration_forms_family): all clauses of the first family are evaluated, the full-path program spells a group's middleware as app.Use(full prefix, mw) where the group is created and a Route() obtained from a group as the plain registration of the full path, the Route()-chain program uses the Register methods of the same names; requests of every HTTP method; handlers also report Route().Method; non-trivial as in the first family. " +
+				"Pattern-shape family (patterns and prefixes of every shape): a further evaluation = one (tree, configuration) pair of a fifth family explored like the parameterised-prefix family with the letters of bounds.pattern_shape_family (escaped special characters, a custom constraint registered on every application, several segments, trailing slash, parameter glued to a constant, no leading slash); non-trivial as in the first family. " +
+				"Shared sub-app family (one sub-app mounted at several places): a further evaluation = one (tree, configuration) pair of a sixth family in which one sub-app object is mounted twice (again(prefix) = the sub-app of the closest preceding sibling mount mounted once more; bounds.shared_subapp_family); the group spelling registers the sub-app's items once per mount with the same handlers; all clauses of the first family; non-trivial as in the first family. " +
 				"Late-registration family (program steps after start-up): a further evaluation = one (two-phase program, routing configuration) pair, where a two-phase program is a tree of the late-registration family (>= 2 top-level items, >= 1 mount, leaf letters with the verb POST besides GET/USE/ALL) together with a split of its top-level sequence into a non-empty part registered before start-up and a non-empty part (routes of every kind and groups of routes; splits whose late part contains a mount are unspecified and not judged, see unspecified_classes) registered on the root app after app.Handler() ran the start-up pass and every request was served once; app.RebuildTree() follows and every request is served again; the second-round observations of P (mounts) and P' (groups, same step sequence) must be equal (requests on which the one-phase P and P' already differ are left to the mount-vs-group clause, which is also evaluated on every tree of this family under all configurations). Such an evaluation is non-trivial when, in P', a handler registered after start-up ran in the second round; counted in the loop.",
 			"bounds": map[string]any{
 				"depth":                fmt.Sprintf("%d (quick tier: depth 2 plus the two-level container letters mount-from-group group(a){mount(b){..}} and mount-in-mount mount(a){mount(b){..}})", pol.depth),
@@ -225,6 +297,30 @@ func main() {
 					"leaf_letters": "kinds GET, USE, ALL x patterns '/*', '/+', '/:id', '/:id?', '/:id<int>', '/:t' (same name as the prefix parameter), '/o/*', '/x', '/' x reply/next (the first n of a fixed order per size class)",
 					"requests":     "every full pattern and container prefix instantiated with a distinct value per parameter position (a, b, c, ...; digits for <int>): one segment per parameter, two segments per wildcard/plus, optional parameters absent, letters for <int>; plus trailing slash, upper case, below-prefix and glued-suffix paths, '/' and one foreign path; x {GET, POST}",
 					"observation":  "per handler: Route().Params, Params(name) for every declared name, Params of *1 *2 *3 +1 +2 +3, the shorthands * and +, Params with default for an undeclared name and for t, fiber.Params[int](c, \"id\", -1); then status, Allow, body",
+				},
+				"registration_forms_family": map[string]any{
+					"size_classes":      fclassText,
+					"trees":             ftotal,
+					"depth":             "2 plus the two-level letters group(a +mw){mount(b){..}}, mount(a){group(b +mw){..}}, group(a){group(b +mw){..}}, mount-from-group and mount-in-mount spelled without leading slashes",
+					"container_letters": "{mount, group created with a middleware (router.Group(prefix, mw)), plain group} x prefixes '/api', 'api' (no leading slash), '/:t', '/' + the two-level letters",
+					"leaf_letters":      "forms USE-LIST (Use([]string{pattern, '/y'}, h)), GET-2H / USE-2H (two handlers in one registration), GET+POST (Add with two methods), ROUTE.GET / ROUTE.ALL (router.Route(pattern).Get / .All from the enclosing group or sub-app), Head, Post, Put, Delete, Connect, Options, Trace, Patch, Get, Use, All x patterns '/x', 'x' (no leading slash), '/', '/:id' x reply/next (the first n of a fixed order per size class)",
+					"methods":           allMethods,
+					"observation":       "per handler: id and Params(id), Params(t), Params(*), Route().Method; then status, Allow, body",
+				},
+				"shared_subapp_family": map[string]any{
+					"size_classes":      hclassText,
+					"trees":             htotal,
+					"container_letters": "mount(p1){..} directly followed by again(p2) for every pair of the prefixes '/api', '/', '/:t' (also p1 = p2), four pairs with again(p2) after the remaining items of the list; trees with two container letters (quick tier: five + two of those pairs) also plain mounts and groups over the same prefixes (the shared sub-app inside another sub-app or group, or with a mount or group of its own)",
+					"leaf_letters":      "as in the first family (the first n of its order per size class)",
+				},
+				"pattern_shape_family": map[string]any{
+					"size_classes": sclassText,
+					"trees":        stotal,
+					"depth":        spol.depth,
+					"prefixes":     shapePrefixOrder,
+					"leaf_letters": "kinds GET, USE, ALL x patterns '/:id<odd>' (custom constraint), '/a\\:b' and '/x\\*' (escaped special characters), 'x' (no leading slash), '/x/y', '/x/', '/:id<odd>/z', '/v:id', '/:id', '/x' x reply/next (the first n of a fixed order per size class)",
+					"requests":     "as in the parameterised-prefix family; a parameter with the custom constraint gets an odd digit, an even digit (constraint fails) and a letter; escape characters are removed from the request path",
+					"constraint":   "every application of a program (root and sub-apps) registers the custom constraint 'odd' with RegisterCustomConstraint",
 				},
 				"late_registration_family": map[string]any{
 					"size_classes":         lclassText,
@@ -259,14 +355,24 @@ func newWorker(r *core.Run) *worker {
 	return w
 }
 
-func runWorker(r *core.Run, pol, lpol, rpol policy) {
+func runWorker(r *core.Run, pol, lpol, rpol, fpol, spol, hpol policy) {
 	debug.SetGCPercent(100)
 	w := newWorker(r)
-	limit := 12 * time.Minute // safety net only: an idle machine needs less than a minute, a machine shared with many other checks several
+	// The budget is CPU time of this (single-threaded) worker, so that a machine shared with many other
+	// checks does not cut the exploration short: an idle machine needs ~50 CPU-s per worker for the quick
+	// tier. The wall-clock limit is a distant safety net only.
+	limit, cpuLimit := 60*time.Minute, 200*time.Second
 	if !r.Quick() {
-		limit = 40 * time.Minute
+		limit, cpuLimit = 3*time.Hour, 45*time.Minute
 	}
 	deadline := r.Start.Add(limit)
+	over := func() bool {
+		var ru syscall.Rusage
+		if syscall.Getrusage(syscall.RUSAGE_SELF, &ru) == nil && time.Duration(ru.Utime.Nano()+ru.Stime.Nano()) > cpuLimit {
+			return true
+		}
+		return time.Now().After(deadline) || r.Expired()
+	}
 	capped := false
 	var n int64
 	enumerate(pol, func(idx int64) bool {
@@ -277,9 +383,9 @@ func runWorker(r *core.Run, pol, lpol, rpol policy) {
 			return false
 		}
 		n++
-		if n%64 == 0 && (time.Now().After(deadline) || r.Expired()) {
+		if n%64 == 0 && over() {
 			capped = true
-			r.Cap("wall-clock limit reached before all trees were explored")
+			r.Cap("CPU budget (or the distant wall-clock limit) reached before all trees were explored")
 			return false
 		}
 		return true
@@ -288,44 +394,57 @@ func runWorker(r *core.Run, pol, lpol, rpol policy) {
 	})
 	// late-registration family (shards continue the index space of the first family)
 	enumerate(lpol, func(idx int64) bool {
-		if onlyParams || !r.Shard(int(idx%(1<<30))) {
+		if skipFamily(onlyLate) || !r.Shard(int(idx%(1<<30))) {
 			return false
 		}
 		if capped {
 			return false
 		}
 		n++
-		if n%64 == 0 && (time.Now().After(deadline) || r.Expired()) {
+		if n%64 == 0 && over() {
 			capped = true
-			r.Cap("wall-clock limit reached before all trees were explored")
+			r.Cap("CPU budget (or the distant wall-clock limit) reached before all trees were explored")
 			return false
 		}
 		return true
 	}, func(idx int64, t *tree) {
 		w.evalLateTree(idx, t, lpol)
 	})
-	// parameterised-prefix family: switch the mode once, drop everything cached under the other mode
-	richMode = true
-	w.pre = "param_"
-	w.chainCache, w.hasMemo, w.bySig = map[string]*sigInfo{}, map[string]bool{}, map[string]*sigInfo{}
-	enumerate(rpol, func(idx int64) bool {
-		if onlyLate || !r.Shard(int(idx%(1<<30))) {
-			return false
-		}
-		if capped {
-			return false
-		}
-		n++
-		if n%64 == 0 && (time.Now().After(deadline) || r.Expired()) {
-			capped = true
-			r.Cap("wall-clock limit reached before all trees were explored")
-			return false
-		}
-		return true
-	}, func(idx int64, t *tree) {
-		w.cfgSel = rpol.cfgsFor(treeClass(t))
-		w.evalTree(idx, t)
-	})
+	// the families explored in a mode of their own: switch the mode, drop everything cached under the other mode
+	for _, fam := range []struct {
+		pre        string
+		rich, form bool
+		pol        policy
+		skip       bool
+	}{
+		{"shared_", false, false, hpol, skipFamily(onlyShared)}, // shared sub-app family
+		{"forms_", false, true, fpol, skipFamily(onlyForms)},    // registration-forms family
+		{"param_", true, false, rpol, skipFamily(onlyParams)},   // parameterised-prefix family
+		{"shape_", true, false, spol, skipFamily(onlyShapes)},   // pattern-shape family
+	} {
+		setMode(fam.rich, fam.form)
+		w.pre = fam.pre
+		w.chainCache, w.hasMemo, w.bySig = map[string]*sigInfo{}, map[string]bool{}, map[string]*sigInfo{}
+		fpolicy := fam.pol
+		enumerate(fpolicy, func(idx int64) bool {
+			if fam.skip || !r.Shard(int(idx%(1<<30))) {
+				return false
+			}
+			if capped {
+				return false
+			}
+			n++
+			if n%64 == 0 && over() {
+				capped = true
+				r.Cap("CPU budget (or the distant wall-clock limit) reached before all trees were explored")
+				return false
+			}
+			return true
+		}, func(idx int64, t *tree) {
+			w.cfgSel = fpolicy.cfgsFor(treeClass(t))
+			w.evalTree(idx, t)
+		})
+	}
 	w.flush()
 	r.Merge(w.l.P)
 	pprof.StopCPUProfile()
@@ -421,10 +540,23 @@ func (w *worker) evalTree(idx int64, t *tree) {
 		for k := range w.seenKinds {
 			delete(w.seenKinds, k)
 		}
-		w.e.sawInside, w.e.sawSecond = false, false
+		w.e.sawInside, w.e.sawSecond, w.e.sawExtra = false, false, false
+		odd := w.e.oddCalls
 		w.e.runAll(t, ti, c, progGroup, nil, &w.oG)
 		if w.e.sawInside {
 			w.l.Add(w.pre+"nontrivial", 1)
+		}
+		if w.e.sawExtra {
+			// anti-vacuity of the registration-forms family: a group's middleware or the extra first handler of a registration ran
+			w.l.Add(w.pre+"evaluations_running_an_extra_handler_or_group_middleware", 1)
+		}
+		if w.pre == "shared_" && w.sharedBoth(t, ti) {
+			// anti-vacuity of the shared sub-app family: a handler of the shared sub-app ran under both of its mounts
+			w.l.Add(w.pre+"evaluations_answering_under_both_mounts_of_one_subapp", 1)
+		}
+		if w.e.oddCalls != odd {
+			// anti-vacuity of the pattern-shape family: the custom constraint decided a match
+			w.l.Add(w.pre+"evaluations_consulting_the_custom_constraint", 1)
 		}
 		if w.e.sawSecond {
 			// anti-vacuity of the parameterised-prefix family: a handler read a non-empty *2 or +2
@@ -458,7 +590,7 @@ func (w *worker) evalTree(idx int64, t *tree) {
 		w.e.runAll(t, ti, c, progRoute, nil, &w.oR)
 		w.compare(clRoute, ci, &w.oR, &w.oF)
 	}
-	if richMode && (w.r.Worker == 2 || w.r.Worker < 0) && w.richSamples < 2 && w.e.sawSecond && idx >= int64(3000*w.richSamples) {
+	if richMode && w.pre == "param_" && (w.r.Worker == 2 || w.r.Worker < 0) && w.richSamples < 1 && w.e.sawSecond && idx >= int64(3000*w.richSamples) {
 		w.richSamples++
 		for i := 0; i < w.oG.n(); i++ {
 			if b := w.oG.get(i); bytes.Contains(b, []byte(",*2=b")) || bytes.Contains(b, []byte(",+2=b")) {
@@ -469,10 +601,45 @@ func (w *worker) evalTree(idx int64, t *tree) {
 			}
 		}
 	}
-	if !richMode && w.r.Worker <= 0 && idx%40000 == 1600 && len(w.l.P.Samples) < 3 {
-		m, p := reqAt(ti, w.oG.n()-1)
+	if formMode && (w.r.Worker == 3 || w.r.Worker < 0) && w.formSamples < 1 && w.e.sawExtra && idx >= 2000 {
+		w.formSamples++
+		i := w.oG.n() - 1
+		for j := 0; j < w.oG.n(); j++ {
+			if b := w.oG.get(j); bytes.Count(b[:bytes.IndexByte(b, '|')], []byte{';'}) >= 2 {
+				i = j
+				break
+			}
+		}
+		m, p := reqAt(ti, i)
+		w.l.Sample(map[string]any{"tree": modePrefix() + t.String(), "config": cfgs[len(cfgs)-1].String(), "requests": len(ti.paths) * len(methods),
+			"paths": ti.paths, "request": m + " " + p, "observation_P'": string(w.oG.get(i))})
+	}
+	if w.pre == "shape_" && (w.r.Worker == 4 || w.r.Worker < 0) && w.shapeSamples < 1 && idx >= 500 {
+		w.shapeSamples++
+		i := w.oG.n() - 2
+		for j := 0; j < w.oG.n(); j++ {
+			if b := w.oG.get(j); bytes.Contains(b, []byte("|200|")) && bytes.Contains(b, []byte(",n.")) {
+				i = j // a request answered by a handler that read a declared parameter
+				break
+			}
+		}
+		m, p := reqAt(ti, i)
+		w.l.Sample(map[string]any{"tree": modePrefix() + t.String(), "config": cfgs[len(cfgs)-1].String(), "requests": len(ti.paths) * len(methods),
+			"paths": ti.paths, "request": m + " " + p, "observation_P'": string(w.oG.get(i))})
+	}
+	// the coordinator keeps six samples: one per family (each from another worker)
+	if w.pre == "shared_" && (w.r.Worker == 5 || w.r.Worker < 0) && w.sharedSamples < 1 && idx >= 1500 && w.sharedBoth(t, ti) {
+		w.sharedSamples++
+		i := w.firstWith([]byte("|200|"))
+		m, p := reqAt(ti, i)
 		w.l.Sample(map[string]any{"tree": t.String(), "config": cfgs[len(cfgs)-1].String(), "requests": len(ti.paths) * len(methods),
-			"paths": ti.paths, "last_request": m + " " + p, "observation_P'": string(w.oG.get(w.oG.n() - 1))})
+			"paths": ti.paths, "request": m + " " + p, "observation_P'": string(w.oG.get(i))})
+	}
+	if w.pre == "" && !richMode && !formMode && w.r.Worker <= 0 && idx%40000 == 1600 && len(w.l.P.Samples) < 1 {
+		i := w.firstWith([]byte("|200|"))
+		m, p := reqAt(ti, i)
+		w.l.Sample(map[string]any{"tree": t.String(), "config": cfgs[len(cfgs)-1].String(), "requests": len(ti.paths) * len(methods),
+			"paths": ti.paths, "request": m + " " + p, "observation_P'": string(w.oG.get(i))})
 	}
 	for _, p := range w.pending {
 		si := w.classify(t, ti, p)
@@ -480,14 +647,60 @@ func (w *worker) evalTree(idx int64, t *tree) {
 	}
 }
 
+// sharedBoth tells whether, in the observations of P' (w.oG), one handler ran for two request paths of
+// which one lies under the prefix of an again(...) node's instantiation and the other does not - coarse:
+// some handler inside a mount ran for >= 2 different paths.
+func (w *worker) sharedBoth(t *tree, ti *treeInfo) bool {
+	var seen [maxLeaves]int
+	var lastPath [maxLeaves]int
+	for i := range lastPath {
+		lastPath[i] = -1
+	}
+	for i := 0; i < w.oG.n(); i++ {
+		b := w.oG.get(i)
+		bar := bytes.IndexByte(b, '|')
+		if bar <= 0 {
+			continue
+		}
+		tr := b[:bar]
+		for j := 0; j < len(tr); j++ {
+			if (j == 0 || tr[j-1] == ';') && j+1 < len(tr) && tr[j+1] == ':' && tr[j] >= '0' && tr[j] <= '9' {
+				id := int(tr[j] - '0')
+				if ti.insideM&(1<<id) != 0 && lastPath[id] != i/len(methods) {
+					lastPath[id] = i / len(methods)
+					seen[id]++
+				}
+			}
+		}
+	}
+	for _, n := range seen {
+		if n >= 2 {
+			return true
+		}
+	}
+	return false
+}
+
+// firstWith is the index of the first observation of P' (w.oG) that contains sub (the last one if none does).
+func (w *worker) firstWith(sub []byte) int {
+	for i := 0; i < w.oG.n(); i++ {
+		if bytes.Contains(w.oG.get(i), sub) {
+			return i
+		}
+	}
+	return w.oG.n() - 1
+}
+
 // treeClass is the (containers, leaves) size class of t.
 func treeClass(t *tree) (c, n int) {
 	var rec func(items []*node)
 	rec = func(items []*node) {
 		for _, it := range items {
-			if it.T == 'r' {
+			switch it.T {
+			case 'r':
 				n++
-			} else {
+			case 's': // part of the container letter of the mount it repeats
+			default:
 				c++
 				rec(it.Items)
 			}
@@ -874,6 +1087,33 @@ func (w *worker) classify(t *tree, ti *treeInfo, p pendingV) *sigInfo {
 		for _, ch := range ti.containers {
 			chains = append(chains, chainTree(ch, nil))
 		}
+		// shared sub-app family: a chain through a mount together with the again(...) node that repeats the mount
+		for _, cc := range ti.containers {
+			sn := cc[len(cc)-1]
+			if sn.T != 's' || sn.ref == nil {
+				continue
+			}
+			for i, lf := range ti.leaves {
+				k := -1
+				for j, c := range lf.chain {
+					if c == sn.ref {
+						k = j
+					}
+				}
+				if k < 0 {
+					continue
+				}
+				items := []*node{chainTree(lf.chain[k:], lf.n).Items[0], {T: 's', Prefix: sn.Prefix}}
+				for j := k - 1; j >= 0; j-- {
+					items = []*node{{T: lf.chain[j].T, Prefix: lf.chain[j].Prefix, MW: lf.chain[j].MW, Items: items}}
+				}
+				if i == p.leaf {
+					chains = append([]*tree{{Items: items}}, chains...)
+				} else {
+					chains = append(chains, &tree{Items: items})
+				}
+			}
+		}
 		if len(ti.containers) > 1 && len(ti.leaves) > 0 {
 			chains = append(chains, containersOnly(t)) // the container structure alone (startup panics, map orders)
 		}
@@ -1011,7 +1251,7 @@ func replay(r *core.Run, text string) {
 	}
 	w := newWorker(r)
 	w.allDev = true
-	fmt.Println("tree:", t)
+	fmt.Println("tree:", modePrefix()+t.String())
 	fmt.Print(t.goProgram())
 	if t.lateHasMount() {
 		fmt.Println("note: a sub-app is mounted after start-up: unspecified, the late-registration clause does not judge this program")
